@@ -6,7 +6,7 @@ ID = "C02"
 COQ_REQUIRE = PC.COQ_REQUIRE
 COQ_DIRS = PC.COQ_DIRS
 RULE = ("histories of kernel events (spawn/exit->zombie/reap/PID reuse/clock steps of -100000..10^9 s) and psutil calls over PIDs "
-        "{0,1,2,3,7,2^31-1}, start ticks from 8 values incl. adjacent ticks, drawn from a weighted grammar with motifs 'clock step, "
+        "{0,1,2,3,7,2^31-1}, start ticks from 21 values (bases 0..2^40, 10^12, each +0/+1/+2) with PID reuse at adjacent ticks (p=0.6), process names with 0-3 blanks/parentheses/15 bytes, thread-count changes, drawn from a weighted grammar with motifs 'clock step, "
         "boot_time(), second object for the same process, ==/hash/is_running' and 'process ends, queries, PID reused, "
         "is_running/==/hash between old and new object'; objects also come from process_iter() and psutil.Popen; calls also inside oneshot() blocks. Class = most specific feature "
         "reached (eq-same-pid-other-proc, isrun-reused, clock, eq-same-proc, ...). Non-trivial = some ==/hash/is_running on an "
